@@ -95,12 +95,12 @@ class StlAstParserVisitor(LtlAstParserVisitor, StlParserVisitor):
     def visitExprUnless(self, ctx):
         child1 = self.visit(ctx.expression(0))
         child2 = self.visit(ctx.expression(1))
-        interval = self.visit(ctx.interval())
         if ctx.interval() == None:
             left = Always(child1)
             right = Until(child1, child2)
             node = Disjunction(left, right)
         else:
+            interval = self.visit(ctx.interval())
             interval_left = Interval(0, interval.end, interval.begin_unit, interval.end_unit)
             left = TimedAlways(child1, interval_left)
             right = TimedUntil(child1, child2, interval)
